@@ -83,11 +83,20 @@ Proof.
     + inversion H; subst. intros k I. apply E. assumption.
 Qed.
 
+Lemma shed_after_keys t x : incl (pk (fst (fst (shed_after t x)))) (pk (fst (fst x))).
+Proof.
+  destruct x as [[p acts] out]. unfold shed_after.
+  destruct (w_dset p) as [[limit [|]]|]; try apply incl_refl.
+  destruct (shed_oldest _ t limit (w_queue p) out) as [q' out'] eqn:E. apply shed_oldest_keys in E.
+  unfold pk. simpl. intros k I. apply in_app_iff in I. apply in_or_app. destruct I as [I|I]; [auto|right; apply E; assumption].
+Qed.
+
 Lemma enqueue_job_keys t p acts out j :
   incl (pk (fst (fst (enqueue_job t (p, acts, out) j)))) (j_key j :: pk p).
 Proof.
   unfold enqueue_job.
   match goal with |- context [if ?b then _ else _] => destruct b end; [apply incl_tl, incl_refl|].
+  eapply incl_tran; [apply shed_after_keys|].
   destruct (w_curr p) as [|c0 cs] eqn:EC.
   - destruct (next_non_expired t (w_queue p) (accept_ev j out)) as [[[o|] q'] out'] eqn:E;
       apply next_non_expired_keys in E; intros k I; apply dispatch_job_keys in I;
@@ -97,16 +106,11 @@ Proof.
       * right. apply E. right. assumption.
       * simpl in I. destruct I as [<-|[]]. left. reflexivity.
     + destruct I as [<-|I]; [left; reflexivity|]. right. apply E. assumption.
-  - assert (B : incl (pk (set_w_queue (w_queue p ++ [clear_port j]) p)) (j_key j :: pk p)).
-    { unfold pk. simpl. intros k I. rewrite map_app in I. simpl in I.
-      repeat (apply in_app_iff in I; destruct I as [I|I]).
-      - right. apply in_or_app. auto.
-      - right. apply in_or_app. auto.
-      - simpl in I. destruct I as [<-|[]]. left. reflexivity. }
-    destruct (w_dset p) as [[limit [|]]|]; try exact B.
-    destruct (shed_oldest _ t limit (w_queue p ++ [clear_port j]) (accept_ev j out)) as [q' out'] eqn:E.
-    apply shed_oldest_keys in E. intros k I. apply B. unfold pk in *. simpl in *.
-    apply in_app_iff in I. apply in_or_app. destruct I as [I|I]; [auto|right; apply E; assumption].
+  - unfold pk. simpl. intros k I. rewrite map_app in I. simpl in I.
+    repeat (apply in_app_iff in I; destruct I as [I|I]).
+    + right. apply in_or_app. auto.
+    + right. apply in_or_app. auto.
+    + simpl in I. destruct I as [<-|[]]. left. reflexivity.
 Qed.
 
 Lemma worker_complete_keys t p acts out k :
@@ -425,6 +429,12 @@ Proof.
     destruct (a_alive x); [apply actor_exit_QI|]; assumption.
   - unfold w_exit. destruct (lookup a (actors w)) as [x|]; [|assumption].
     destruct (a_alive x), (a_stop x), (a_run x); try assumption. apply actor_exit_QI. assumption.
+  - apply stop_actor_QI. assumption.
+  - unfold w_close. destruct (lookup a (actors w)) as [x|]; [|assumption].
+    destruct (a_alive x), (a_stop x), (a_run x); try assumption.
+    assert (G : QI (actor_exit a (CStopExit a) w)) by (apply actor_exit_QI; assumption). exact G.
+  - unfold w_closed. destruct (lookup a (actors w)) as [x|]; [|assumption].
+    destruct (memN a (closing w) && negb (a_alive x)); assumption.
   - unfold finalize. destruct (fstatus w); try assumption.
     destruct (all_workers_gone w); [|assumption]. unfold QI. simpl. exact Q_nil.
 Qed.
